@@ -422,7 +422,18 @@ class World(object):
             return None
         if (c.co_flags & 0x3) == 0x3 and not consts and extra and isinstance(extra[0], str):
             extra = [None] + extra  # never turn a grafted str into a docstring
-        new = replace_code(c, co_consts=tuple(consts + extra))
+        kw = {"co_consts": tuple(consts + extra)}
+        if op.get("junk_tail") is not None:
+            # an opcode this interpreter does not define, after the last instruction (never executed)
+            import dis
+
+            undefined = [i for i in range(1, 256) if dis.opname[i].startswith("<")]
+            kw["co_code"] = c.co_code + bytes([undefined[op["junk_tail"] % len(undefined)], 0])
+            self.count("graft_undefined_opcode")
+        try:
+            new = replace_code(c, **kw)
+        except (ValueError, TypeError):
+            return None
         s = self.add_slot(op, "code", new, lineage=op["id"], route=parent.route + ["graft"], parent=parent)
         self.count("graft")
         self.event("graft", op["id"], fp.digest(s.snap))
